@@ -7,15 +7,22 @@ pub mod prop_c08;
 pub mod prop_c08_scan;
 pub mod prop_c10;
 pub mod prop_c14;
+pub mod prop_c15;
 
 use framework::PropertyDef;
 
 pub fn registry() -> Vec<PropertyDef> {
-    vec![prop_c08::def(), prop_c10::def(), prop_c14::def()]
+    vec![prop_c08::def(), prop_c10::def(), prop_c14::def(), prop_c15::def()]
 }
 
 /// Internal process sub-modes used by engines (crash children, decoder workers).
 pub fn internal_mode(mode: &str, _args: &[String]) -> i32 {
-    eprintln!("unknown mode {mode}");
-    2
+    match mode {
+        // decoder worker of engine E (C15): requests on stdin, answers on stdout
+        "codec-worker" => prop_c15::worker_main(),
+        _ => {
+            eprintln!("unknown mode {mode}");
+            2
+        }
+    }
 }
